@@ -34,6 +34,33 @@ class Budget(Exception):
     pass
 
 
+_ESCAPES = {"t": "\t", "n": "\n", "r": "\r", "0": "\0", "b": "\b", "f": "\f", "v": "\v"}
+
+
+def resolve_escapes(raw, javascript=False):
+    """the text a string literal denotes.  The IRs carry literals with their escape sequences intact (the parser only
+    resolves `\\"`); both back ends resolve them - JavaScript when it reads the template literal, the WebAssembly
+    lowering when it fills the data segment - so string VALUES are compared in resolved form.  `javascript`: the text
+    of a template literal (`\\x00`, an escaped backtick or dollar sign may occur in addition)."""
+    out = []
+    i = 0
+    n = len(raw)
+    while i < n:
+        c = raw[i]
+        if c != "\\" or i + 1 >= n:
+            out.append(c)
+            i += 1
+            continue
+        d = raw[i + 1]
+        if javascript and d == "x" and i + 3 < n:
+            out.append(chr(int(raw[i + 2:i + 4], 16)))
+            i += 4
+            continue
+        out.append(_ESCAPES.get(d, d))
+        i += 2
+    return "".join(out)
+
+
 class Int:
     __slots__ = ("t", "jsbool")
 
@@ -380,7 +407,7 @@ class Exec:
         if "i31" in e:
             return I31(BV(e["i31"]))
         if "s" in e:
-            return Str(e["s"])
+            return Str(resolve_escapes(e["s"]))
         if "fn" in e:
             return Fn(e["fn"])
         n = e["v"]
